@@ -20,6 +20,7 @@ import (
 	"fmt"
 	"go/ast"
 	"go/token"
+	"hash/fnv"
 	"strings"
 )
 
@@ -112,6 +113,11 @@ func effectOf(s ast.Stmt) string {
 				rhs = exprKey2(r.Type) + "{}"
 			case *ast.CallExpr:
 				rhs = exprKey2(r.Fun) + "()"
+				if exprKey2(r.Fun) == "logger.Errorf" && len(r.Args) > 0 {
+					if f, ok := goStringLit(r.Args[0]); ok {
+						rhs = "Errorf(" + f + ")"
+					}
+				}
 			default:
 				rhs = exprKey2(r)
 			}
@@ -129,6 +135,17 @@ func effectOf(s ast.Stmt) string {
 		return ""
 	}
 	return "?" + fmt.Sprintf("%T", s)
+}
+
+// shortLabel keeps labels short enough for Lean's string-literal patterns: a long label is cut and
+// closed with a hash of the whole text
+func shortLabel(l string) string {
+	if len(l) <= 100 {
+		return l
+	}
+	h := fnv.New32a()
+	_, _ = h.Write([]byte(l))
+	return fmt.Sprintf("%s …#%08x", l[:70], h.Sum32())
 }
 
 func returnLabel(r *ast.ReturnStmt) string {
@@ -150,7 +167,7 @@ func returnLabel(r *ast.ReturnStmt) string {
 		}
 		parts = append(parts, exprKey2(e))
 	}
-	return "return " + strings.Join(parts, ", ")
+	return "return " + strings.Join(strings.Fields(strings.Join(parts, ", ")), " ")
 }
 
 func endsInReturn(stmts []ast.Stmt) bool {
@@ -176,11 +193,11 @@ func (t *decTr) dec(stmts []ast.Stmt, effects []string, end string) string {
 		if end == "" {
 			failf(nil, "a path falls off the end of the function")
 		}
-		return leanStr(strings.Join(append(append([]string{}, effects...), end), "; "))
+		return leanStr(shortLabel(strings.Join(append(append([]string{}, effects...), end), "; ")))
 	}
 	switch x := stmts[0].(type) {
 	case *ast.ReturnStmt:
-		return leanStr(strings.Join(append(append([]string{}, effects...), returnLabel(x)), "; "))
+		return leanStr(shortLabel(strings.Join(append(append([]string{}, effects...), returnLabel(x)), "; ")))
 	case *ast.IfStmt:
 		if t.quiet && x.Else == nil && !hasReturnOrCall(x.Body.List) {
 			return t.dec(stmts[1:], effects, end)
@@ -267,6 +284,8 @@ var decJobs = []decJob{
 	{"pkg/builder/assignment.go", "assignmentBuilder", "matchStructFieldAndStruct", "matchStructFieldAndStruct", "", false},
 	{"pkg/builder/postprocess.go", "FunctionBuilder", "buildManipulator", "buildManipulator", "", true},
 	{"pkg/builder/method.go", "FunctionBuilder", "CreateFunction", "createFunctionChecks", "var assignments", true},
+	{"pkg/parser/comment.go", "Parser", "lookupConverterFunc", "lookupConverterFunc", "", false},
+	{"pkg/parser/comment.go", "Parser", "lookupManipulatorFunc", "lookupManipulatorFunc", "", true},
 }
 
 func genDecisions(repo string) string {
